@@ -181,7 +181,7 @@ struct H {
       int n = 0; for (int i = 0; i < 4; ++i) { ClientCb* c = client[i]; if (c && !c->failedIo && !c->peerClosed) { peerClose(i); unsigned char z[8] = {1, 2, 3, 4, 5, 6, 7, 8}; c->cl->write(z, 8); if (!c->cl->write(z, 8)) { c->failedIo = true; ++n; } } }
       if (n >= 2) ctx->label("several_clients_fail_together");
     }
-    else if (nm == "r_none" || nm == "r_rmnew") {}
+    else if (nm == "r_none" || nm == "r_rmnew" || nm == "r_reconnect") {}
     else ctx->count("unknown_op");
   }
   // every write of the harness goes through here: a postponed rest is a backlog that the loop has to send and acknowledge with onWrite
@@ -295,7 +295,14 @@ Server::Client::ICallback* EstCb::onConnected(Server::Client& clientRef) {
 void EstCb::onAbolished() {
   ++h->callbacks; if (!alive) h->fail("removed:establisher-callback", "onAbolished after remove() returned");
   if (done) h->fail("dispatch:establisher-twice", "an establisher was notified twice"); done = true;
-  h->ctx->label("onAbolished"); H* hh = h; hh->react(-1, -1);
+  h->ctx->label("onAbolished"); H* hh = h; int me = slot;
+  // the usual reconnect pattern: the abolished establisher is removed and a new attempt is made, both inside the callback
+  if (hh->depth == 0 && hh->nextReaction < hh->reactions.size() && hh->reactions[hh->nextReaction]->name == "r_reconnect") {
+    const Op& r = *hh->reactions[hh->nextReaction++]; long b = r.a[1] < 0 ? -r.a[1] : r.a[1];
+    ++hh->depth; hh->removeEst(me); hh->newEstablisher(me, (b & 1) ? (int)((b >> 1) % NLI) : -1); --hh->depth;
+    hh->ctx->label("reconnect_inside_onAbolished"); return;
+  }
+  hh->react(-1, -1);
 }
 }  // namespace
 
@@ -306,8 +313,8 @@ void pbt_generate(Rng& r, int size, Case& c) {
   int n = 3 + (int)r.below((uint64_t)size + 1), nr = (int)r.below((uint64_t)size + 2), np = (int)r.below(12);
   static const char* tops[] = {"timer", "rmtimer", "client", "rmclient", "peerwrite", "peerclose", "suspend", "resume", "listener", "rmlistener", "incoming", "establish", "rmest", "interrupt", "cwrite", "run", "failall", "bigwrite", "failrm", "stall"};
   static const int wt[] = {22, 8, 10, 5, 12, 3, 3, 3, 4, 2, 5, 4, 2, 3, 4, 16, 3, 6, 3, 2};
-  static const char* reacts[] = {"r_none", "r_timer", "r_rmtimer", "r_client", "r_rmclient", "r_peerwrite", "r_peerclose", "r_suspend", "r_resume", "r_rmlistener", "r_incoming", "r_rmest", "r_interrupt", "r_cwrite", "r_bigwrite", "r_failrm", "r_rmnew"};
-  static const int wr[] = {10, 14, 22, 4, 12, 8, 3, 4, 4, 3, 3, 3, 4, 4, 6, 2, 5};
+  static const char* reacts[] = {"r_none", "r_timer", "r_rmtimer", "r_client", "r_rmclient", "r_peerwrite", "r_peerclose", "r_suspend", "r_resume", "r_rmlistener", "r_incoming", "r_rmest", "r_interrupt", "r_cwrite", "r_bigwrite", "r_failrm", "r_rmnew", "r_reconnect"};
+  static const int wr[] = {10, 14, 22, 4, 12, 8, 3, 4, 4, 3, 3, 3, 4, 4, 6, 2, 5, 5};
   bool burst = r.chance(40);   // many timers created in the same millisecond with equal intervals
   for (int k = 0; k < n; ++k) {
     int o = r.weighted(wt, 20);
@@ -315,7 +322,7 @@ void pbt_generate(Rng& r, int size, Case& c) {
     if (burst && o == 0) b = (long)(r.chance(70) ? 2 : r.below(7));
     c.add(tops[o], a, b, (long)r.below(o == 17 ? 1024 : 40));
   }
-  for (int k = 0; k < nr; ++k) { int o = r.weighted(wr, 17); c.add(reacts[o], (long)r.below(64), (long)r.below(64), (long)r.below(1 << 10)); }
+  for (int k = 0; k < nr; ++k) { int o = r.weighted(wr, 18); c.add(reacts[o], (long)r.below(64), (long)r.below(64), (long)r.below(1 << 10)); }
   { int nf = (int)r.below(8); for (int k = 0; k < nf; ++k) c.add("fault", (long)r.below(3), (long)(1 + r.below(30))); }
   for (int k = 0; k < np; ++k) c.add("perm", (long)r.below(1 << 16));
 }
@@ -361,6 +368,14 @@ void pbt_run(const Case& cs, Ctx& ctx) {
   // final run: long enough for everything pending to be dispatched
   if (h.interruptRequested) ctx.label("interrupt_pending_at_final_run");
   runLoop(120);
+  // a connection attempt on the loopback interface is answered at once, but in real time, not in the loop's virtual time: an
+  // establisher that is still waiting gets up to 100 ms of real time (in 2 ms steps) before its silence counts
+  for (int round = 0; round < 50; ++round) {
+    bool waiting = false; for (int i = 0; i < NES; ++i) if (h.est[i] && !h.est[i]->done) waiting = true;
+    if (!waiting) break;
+    usleep(2000); runLoop(5); ctx.count("waited_for_establisher");
+  }
+  for (int i = 0; i < NES; ++i) if (h.est[i] && !h.est[i]->done) { ctx.opIndex = -2; h.fail("dispatch:establisher-never-notified", "establisher " + std::to_string(i) + " got neither onConnected nor onAbolished although the loop ran for 100 ms of real time after the attempt"); }
   ctx.opIndex = -2;
   srv::st().active = false; srv::idleHookPtr = nullptr;
   if (srv::st().permuted) ctx.label("readiness_order_permuted"); if (srv::st().truncated) ctx.label("readiness_subset");
